@@ -1,10 +1,10 @@
 package chk
 
 import (
-	"golang.org/x/tools/go/types/typeutil"
 	"go/ast"
 	"go/token"
 	"go/types"
+	"golang.org/x/tools/go/types/typeutil"
 	"sort"
 )
 
